@@ -33,7 +33,8 @@ def run(rep, kf, tier, seed):
     for r in core.run_parallel(tasks):
         rep.merge(r)
     import contracts.removal as crm
-    engine_b.discharge(rep, kf, [crm.propagate_contract()], "C06", tier, seed)
+    import contracts.body_refs as cbr
+    engine_b.discharge(rep, kf, [crm.propagate_contract(), cbr.resolve_contract()], "C06", tier, seed)
     import contracts.closure as clo
     clo.macro_presence_obligations(rep, "C06")
     import contracts.containment as ct
